@@ -419,6 +419,11 @@ def classify(case):
         labs.append("hetatm")
     if case.get("missing_occ"):
         labs.append("absent-occupancy")
+    pos = {}
+    for a in atoms:
+        pos.setdefault((a["model"], a["chain"], a["resseq"], a["icode"]), set()).add(a["resname"])
+    if any(len(v) > 1 for v in pos.values()):
+        labs.append("two-residues-at-one-position")
     if case.get("row_order") and len({a["model"] for a in atoms}) >= 2:
         labs.append("cif-rows-" + case["row_order"])
     if case.get("dialect"):
@@ -432,7 +437,7 @@ def classify(case):
 def st_cases():
     from hypothesis import strategies as st
 
-    return st.fixed_dictionaries({"atoms": atomtab.st_tables(clashes=True, modified=True),
+    return st.fixed_dictionaries({"atoms": atomtab.st_tables(clashes=True, modified=True, shared_positions=True),
                                   "missing_occ": st.sampled_from(["", "", "?", "."]),
                                   "row_order": st.sampled_from(["", "polymer-first", "by-residue", "models-reversed"]),
                                   "dialect": st.one_of(st.none(), st.fixed_dictionaries({
